@@ -171,7 +171,7 @@ def r04_5(ctx):
     if mb:
         t = expr_str(mb["body"])
         r.saw(mb["path"])
-        r.ob("modifiers become `{name: true}` entries (none -> no object)", "if modifiers.is_empty() None" in t and "value: Lit(Bool(Bool{span: DUMMY_SP, value: True}))" in t, C.mloc(mb, mb), t[:120])
+        r.ob("modifiers become `{name: true}` entries (none -> no object)", bool(re.search(r"if modifiers\.is_empty\(\) (ret )?None", t)) and "value: Lit(Bool(Bool{span: DUMMY_SP, value: True}))" in t, C.mloc(mb, mb), t[:120])
     return r
 
 
